@@ -676,6 +676,11 @@ fn run_family(ctx: &mut Ctx, fams: &Families, family: &str, bounds: &str) {
     for a in accs {
         total.merge(a);
     }
+    // samples: three addressable programs of the family (first, middle, last index)
+    for idx in [0, n / 2, n.saturating_sub(1)] {
+        let (mode, body) = fams.program(family, idx);
+        total.sample(idx, || case_json(family, idx, mode, &body));
+    }
     for m in machinery.into_inner().unwrap() {
         ctx.machinery_error(m);
     }
